@@ -285,6 +285,9 @@ func (g unionReprKeyedReprBuilderGenerator) EmitNodeAssemblerMethodAssignNode(w 
 				if err != nil {
 					return err
 				}
+				if v.IsAbsent() {
+					continue // an absent value (an unset optional field of a typed struct) is not an entry.
+				}
 				if err := na.AssembleKey().AssignNode(k); err != nil {
 					return err
 				}
